@@ -18,7 +18,8 @@ RULE = ("A case is an argv for `msmart-ng control <host> [--id --token --key] se
         "time). Invalid cases: a catalogue of unknown / read-only / method / private names and ill-typed values, alone "
         "or next to a valid setting. Oracle: exit status, device state after = before + exactly the requested changes, "
         "display toggle on the wire iff the value differs, and for invalid cases no connection attempt at all. "
-        "Distinct = distinct argv+initial state; non-trivial = every case.")
+        "Distinct = distinct argv+initial state; non-trivial = every case."
+        " Later additions: --capabilities against units without custom fan speeds (or that never answer the capability query) while an unnamed fan speed is reported.")
 ASSUMPTIONS = [
     "an exception escaping cli.main() is what CPython turns into exit status 1: it counts as 'rejected with a non-zero "
     "exit' (e.g. operational_mode='fan only' -> SyntaxError, a setting without '=' -> ValueError)",
